@@ -1,5 +1,256 @@
-"""Structural (AST-level) obligations."""
+"""Structural (AST-level) obligations: facts about the shape of the real source that a property rests on
+and that are decided by inspecting the AST re-read from the working tree (no solver needed)."""
+import ast
+
+# ---------------------------------------------------------------------------
+# C16: ownership classes of every module-level / class-level mutable binding of asynq/*.py
+OWNERSHIP = {
+    # thread-local roots
+    ("scheduler", "_state"): "thread-local root (LocalTaskSchedulerState)",
+    ("batching", "_debug_batch_state"): "thread-local root (LocalDebugBatchState)",
+    ("profiler", "_state"): "thread-local root (LocalProfileState)",
+    # context-local
+    ("asynq_to_async", "_asyncio_mode"): "context-local (ContextVar)",
+    # keyed by thread
+    ("tools", "DeduplicateDecorator.tasks"): "process-wide dict, every key contains threading.current_thread()",
+    # process-wide configuration (read-only in scheduling code)
+    ("_debug", "options"): "process-wide configuration object",
+    ("debug", "options"): "alias of _debug.options",
+    ("debug", "original_hook"): "process-wide configuration (exception hook)",
+    ("debug", "is_attached"): "process-wide configuration (exception hook)",
+    ("debug", "_use_original_exc_handler"): "process-wide configuration",
+    ("debug", "_should_filter_traceback"): "process-wide configuration",
+    ("debug", "_use_syntax_highlighting"): "process-wide configuration",
+    ("debug", "_std_str"): "immutable alias", ("debug", "_std_repr"): "immutable alias",
+    # immutable after import
+    ("futures", "_debug_options"): "alias of _debug.options", ("futures", "_none"): "immutable marker",
+    ("futures", "none_future"): "immutable constant future",
+    ("batching", "_debug_options"): "alias of _debug.options",
+    ("scheduler", "_debug_options"): "alias of _debug.options", ("scheduler", "_futures_none"): "immutable marker",
+    ("async_task", "_debug_options"): "alias of _debug.options", ("async_task", "_futures_none"): "immutable marker",
+    ("async_task", "_none_future"): "immutable constant future", ("async_task", "MAX_DUMP_INDENT"): "constant",
+    ("async_task", "_empty_tuple"): "immutable", ("async_task", "_empty_dictionary"): "never written (shared empty dict)",
+    ("utils", "_debug_options"): "alias of _debug.options",
+    ("decorators", "logger"): "logging.Logger (thread-safe by the logging module)",
+    ("generator", "END_OF_GENERATOR"): "immutable marker",
+    ("generator", "_AsyncGenerator.__next__"): "method alias (next)",
+    ("scoped_value", "_empty_context"): "immutable", ("scoped_value", "async_override"): "class alias",
+    ("mock_", "_patch"): "alias of unittest.mock._patch", ("mock_", "_get_target"): "alias",
+    ("asynq_to_async", "AsyncioMode._token"): "class-level default None; instances set their own",
+    ("decorators", "PureAsyncDecoratorBinder"): "class",
+    ("tools", "DeduplicateDecorator.binder_cls"): "class attribute: binder class (immutable)",
+    ("decorators", "PureAsyncDecorator.binder_cls"): "class attribute: binder class (immutable)",
+    ("decorators", "AsyncDecorator.binder_cls"): "class attribute: binder class (immutable)",
+    ("decorators", "AsyncAndSyncPairDecorator.binder_cls"): "class attribute: binder class (immutable)",
+    ("decorators", "AsyncWrapper.binder_cls"): "class attribute: binder class (immutable)",
+}
+THREAD_LOCAL_ROOTS = {"scheduler": ("LocalTaskSchedulerState", ["current", "last_id"]),
+                      "batching": ("LocalDebugBatchState", ["batches"]),
+                      "profiler": ("LocalProfileState", ["stats", "counter"])}
+SKIP_NAMES = {"__traceback_hide__", "__all__", "__version__"}
+
+
+def _rec(name, ok, reason=""):
+    return {"name": "structural#" + name, "kind": "structural", "label": name, "status": "discharged" if ok else "failed",
+            "backend": "ast", "seconds": 0.0, "reason": reason, "lineno": None, "trace": [reason] if reason else [],
+            "model": {}, "model_text": ""}
+
+
+def _module_bindings(mod):
+    out = []
+    for node in mod.tree.body:
+        targets = []
+        if isinstance(node, ast.Assign):
+            targets = node.targets
+        elif isinstance(node, ast.AnnAssign):
+            targets = [node.target]
+        for t in targets:
+            if isinstance(t, ast.Name) and t.id not in SKIP_NAMES:
+                out.append((t.id, node))
+    for cname, cnode in mod.classes.items():
+        for node in cnode.body:
+            targets = []
+            if isinstance(node, ast.Assign):
+                targets = node.targets
+            elif isinstance(node, ast.AnnAssign):
+                targets = [node.target]
+            for t in targets:
+                if isinstance(t, ast.Name) and t.id not in SKIP_NAMES:
+                    out.append((cname + "." + t.id, node))
+    return out
+
+
+def ownership_inventory(repo, reg, eng):
+    """Every module-level and class-level binding of asynq/*.py is classified; a new or unclassified binding
+    (e.g. thread-local state turned into module state) fails."""
+    missing = []
+    for mname, mod in repo.modules.items():
+        for name, node in _module_bindings(mod):
+            if (mname, name) in OWNERSHIP:
+                continue
+            v = getattr(node, "value", None)
+            # immutable literals / class or function aliases need no entry
+            if isinstance(v, ast.Constant) or v is None:
+                continue
+            if isinstance(v, (ast.Name, ast.Attribute)) and not isinstance(v, ast.Call):
+                # alias of a module attribute: must be an entry unless it aliases a class/function
+                pass
+            missing.append("%s.%s (line %d)" % (mname, name, node.lineno))
+    # functions must not introduce new module state through `global` writes outside the known configuration module
+    for mname, mod in repo.modules.items():
+        for q, fn in mod.functions.items():
+            for n in ast.walk(fn):
+                if isinstance(n, ast.Global):
+                    for g in n.names:
+                        written = any(isinstance(x, ast.Name) and x.id == g and isinstance(x.ctx, ast.Store) for x in ast.walk(fn))
+                        if written and (mname, g) not in OWNERSHIP:
+                            missing.append("%s.%s written through `global` in %s" % (mname, g, q))
+                        elif written and not OWNERSHIP[(mname, g)].startswith("process-wide configuration"):
+                            missing.append("%s.%s (%s) is rebound in %s" % (mname, g, OWNERSHIP[(mname, g)], q))
+    return _rec("ownership-inventory", not missing, "unclassified shared state: " + "; ".join(missing[:8]) if missing else "")
+
+
+def thread_local_roots(repo, reg, eng):
+    """The three per-thread state holders derive from threading.local and create fresh state in __init__; the
+    module-level instance is created from that class."""
+    bad = []
+    for mname, (cls, fields) in THREAD_LOCAL_ROOTS.items():
+        mod = repo.modules.get(mname)
+        c = mod.classes.get(cls) if mod else None
+        if c is None:
+            bad.append("%s.%s missing" % (mname, cls))
+            continue
+        bases = [ast.unparse(b) for b in c.bases]
+        if "threading.local" not in bases:
+            bad.append("%s.%s does not derive from threading.local (%s)" % (mname, cls, bases))
+        init = mod.functions.get(cls + ".__init__")
+        assigned = set()
+        fresh_ok = True
+        todo = [init] if init is not None else []
+        # state may be created by a method called from __init__ (LocalTaskSchedulerState.reset)
+        for extra in ("reset",):
+            if mod.functions.get(cls + "." + extra) is not None:
+                todo.append(mod.functions[cls + "." + extra])
+        for fn in todo:
+            for n in ast.walk(fn):
+                if isinstance(n, ast.Assign):
+                    for t in n.targets:
+                        if isinstance(t, ast.Attribute) and isinstance(t.value, ast.Name) and t.value.id == "self":
+                            assigned.add(t.attr)
+                            v = n.value
+                            if not isinstance(v, (ast.List, ast.Dict, ast.Constant, ast.Call)):
+                                fresh_ok = False
+                            if isinstance(v, ast.Name):
+                                fresh_ok = False
+        for f in fields:
+            if f not in assigned:
+                bad.append("%s.%s does not create per-thread field %s in __init__" % (mname, cls, f))
+        if not fresh_ok:
+            bad.append("%s.%s.__init__ stores a shared (non-fresh) object" % (mname, cls))
+        # module-level instance
+        root = {"scheduler": "_state", "batching": "_debug_batch_state", "profiler": "_state"}[mname]
+        inst = [n for name, n in _module_bindings(mod) if name == root]
+        if not inst or not (isinstance(inst[0].value, ast.Call) and ast.unparse(inst[0].value.func) == cls):
+            bad.append("%s.%s is not an instance of %s" % (mname, root, cls))
+    # the asyncio-mode flag is a ContextVar
+    m = repo.modules.get("asynq_to_async")
+    am = [n for name, n in _module_bindings(m) if name == "_asyncio_mode"] if m else []
+    if not am or not (isinstance(am[0].value, ast.Call) and ast.unparse(am[0].value.func) == "ContextVar"):
+        bad.append("asynq_to_async._asyncio_mode is not a ContextVar")
+    return _rec("thread-local-roots", not bad, "; ".join(bad[:6]))
+
+
+def dedup_key_thread(repo, reg, eng):
+    """DeduplicateDecorator.cache_key evaluates threading.current_thread() at call time as a component of the
+    key, and every access to the shared `tasks` dict goes through a key produced by cache_key."""
+    mod = repo.modules.get("tools")
+    bad = []
+    ck = mod.functions.get("DeduplicateDecorator.cache_key") if mod else None
+    if ck is None:
+        return _rec("dedup-key-thread", False, "cache_key missing")
+    rets = [n for n in ast.walk(ck) if isinstance(n, ast.Return)]
+    ok = False
+    for r in rets:
+        if isinstance(r.value, ast.Tuple):
+            calls = [ast.unparse(e) for e in r.value.elts]
+            if any(c.replace(" ", "") == "threading.current_thread()" for c in calls) and any("id(self.fn)" in c for c in calls) \
+                    and any("self.keygetter(" in c for c in calls):
+                ok = True
+    if not ok:
+        bad.append("cache_key does not return (keygetter(args, kwargs), threading.current_thread(), id(self.fn)) evaluated per call")
+    for q in ("DeduplicateDecorator.asynq", "DeduplicateDecorator.dirty"):
+        fn = mod.functions.get(q)
+        if fn is None:
+            bad.append(q + " missing")
+            continue
+        keyvars = set()
+        for n in ast.walk(fn):
+            if isinstance(n, ast.Assign) and isinstance(n.value, ast.Call) and ast.unparse(n.value.func) == "self.cache_key":
+                for t in n.targets:
+                    if isinstance(t, ast.Name):
+                        keyvars.add(t.id)
+        for n in ast.walk(fn):
+            if isinstance(n, ast.Subscript) and ast.unparse(n.value) == "self.tasks":
+                if not (isinstance(n.slice, ast.Name) and n.slice.id in keyvars):
+                    bad.append("%s indexes self.tasks with something other than cache_key(...)" % q)
+            if isinstance(n, ast.Call) and isinstance(n.func, ast.Attribute) and ast.unparse(n.func.value) == "self.tasks":
+                if not (n.args and isinstance(n.args[0], ast.Name) and n.args[0].id in keyvars):
+                    bad.append("%s calls self.tasks.%s with something other than cache_key(...)" % (q, n.func.attr))
+    return _rec("dedup-key-thread", not bad, "; ".join(bad[:4]))
+
+
+def one_yield_per_helper(repo, reg, eng):
+    """C14 'issued together': in amap/afilter/afilterfalse/asift the per-element calls are the members of ONE yielded
+    list comprehension over the (materialised) input; asorted/amax/amin obtain all keys through one amap call."""
+    mod = repo.modules.get("tools")
+    bad = []
+    for name, callee in (("amap", "function.asynq"), ("afilter", "function.asynq"), ("afilterfalse", "function.asynq"), ("asift", "pred.asynq")):
+        fn = mod.functions.get(name)
+        ys = [n for n in ast.walk(fn) if isinstance(n, ast.Yield)] if fn else []
+        comp = [y for y in ys if isinstance(y.value, ast.ListComp) and isinstance(y.value.elt, ast.Call)
+                and ast.unparse(y.value.elt.func) == callee]
+        if len(ys) != 1 or len(comp) != 1:
+            bad.append("%s: expected exactly one yield of [%s(x) for x in ...]" % (name, callee))
+    for name in ("asorted", "amax", "amin"):
+        fn = mod.functions.get(name)
+        ys = [n for n in ast.walk(fn) if isinstance(n, ast.Yield)] if fn else []
+        if len(ys) != 1 or not (isinstance(ys[0].value, ast.Call) and ast.unparse(ys[0].value.func) == "amap.asynq"):
+            bad.append("%s: expected exactly one yield amap.asynq(key, values)" % name)
+    return _rec("one-yield-per-helper", not bad, "; ".join(bad[:4]))
+
+
+def mock_restoration_delegated(repo, reg, eng):
+    """C19: _PatchAsync overrides only __enter__ and copy; restoration (__exit__, start, stop) is entirely
+    unittest.mock._patch's, and patch.stopall is mock.patch.stopall."""
+    mod = repo.modules.get("mock_")
+    bad = []
+    c = mod.classes.get("_PatchAsync") if mod else None
+    if c is None:
+        return _rec("mock-restoration-delegated", False, "_PatchAsync missing")
+    meths = {n.name for n in c.body if isinstance(n, ast.FunctionDef)}
+    if meths - {"__enter__", "copy"}:
+        bad.append("_PatchAsync overrides %s" % sorted(meths - {"__enter__", "copy"}))
+    if [ast.unparse(b) for b in c.bases] != ["_patch"]:
+        bad.append("_PatchAsync bases changed")
+    found = False
+    for n in mod.tree.body:
+        if isinstance(n, ast.Assign) and ast.unparse(n.targets[0]) == "patch.stopall" and ast.unparse(n.value) == "mock.patch.stopall":
+            found = True
+    if not found:
+        bad.append("patch.stopall is not mock.patch.stopall")
+    return _rec("mock-restoration-delegated", not bad, "; ".join(bad))
+
+
+CHECKS = {"ownership-inventory": ownership_inventory, "thread-local-roots": thread_local_roots,
+          "dedup-key-thread": dedup_key_thread, "one-yield-per-helper": one_yield_per_helper,
+          "mock-restoration-delegated": mock_restoration_delegated}
 
 
 def run(name, repo, reg, eng):
-    raise NotImplementedError(name)
+    try:
+        return CHECKS[name](repo, reg, eng)
+    except Exception:
+        import traceback
+        r = _rec(name, False, "structural check error: " + traceback.format_exc()[-500:])
+        r["status"] = "unknown"
+        return r
